@@ -604,6 +604,7 @@ func typedAPI(repM, repU *Report, wM, wU *CaseWriter, r *rand.Rand, thorough boo
 	apiTuples(repM, repU, r, n)
 	apiFuncTargets(repM, repU, r)
 	apiHookKeyOrder(repM, repU, r)
+	apiLateRegistration(repM, "C08", "C11", "C01")
 	apiFanOut(repU, r)
 	streamsSharedToken(repU, "C05", "C01")
 	apiDeepShared(repM, repU)
@@ -1217,7 +1218,9 @@ func (k LenKey) MarshalSB(ctx sb.Ctx, cont sb.Proc) sb.Proc {
 
 type NegKey int // Binary hook on an int-kinded type: marshals as the decimal text of -k
 
-func (k NegKey) MarshalBinary() ([]byte, error) { return []byte(fmt.Sprintf("%08d", 1000000-int(k))), nil }
+func (k NegKey) MarshalBinary() ([]byte, error) {
+	return []byte(fmt.Sprintf("%08d", 1000000-int(k))), nil
+}
 func (k *NegKey) UnmarshalBinary(bs []byte) error {
 	var n int
 	if _, err := fmt.Sscanf(string(bs), "%d", &n); err != nil {
@@ -1264,6 +1267,103 @@ func apiHookKeyOrder(repM, repU *Report, r *rand.Rand) {
 		repU.Evaluations++
 		if e != nil || !reflect.DeepEqual(back.Elem().Interface(), x) {
 			repU.violate("C01", "roundtrip-error", fmt.Sprintf("a map keyed by a hook type does not round-trip: %v, got %v", e, back.Elem().Interface()), fmt.Sprintf("type=%T", x))
+		}
+	}
+}
+
+// ---- a type that carries a marshalling method and is registered LATE: marshalled through a pointer / an
+// interface before sb.Register, then registered; from then on it carries its type name at every level of
+// indirection, whatever was marshalled before ----
+type LateBin struct{ N int }
+
+func (l LateBin) MarshalBinary() ([]byte, error) { return []byte(fmt.Sprintf("late:%d", l.N)), nil }
+func (l *LateBin) UnmarshalBinary(bs []byte) error {
+	_, err := fmt.Sscanf(string(bs), "late:%d", &l.N)
+	return err
+}
+
+type LateText struct{ N int }
+
+func (l LateText) MarshalText() ([]byte, error) { return []byte(fmt.Sprintf("text:%d", l.N)), nil }
+func (l *LateText) UnmarshalText(bs []byte) error {
+	_, err := fmt.Sscanf(string(bs), "text:%d", &l.N)
+	return err
+}
+
+type LateSB struct{ N int }
+
+func (l LateSB) MarshalSB(ctx sb.Ctx, cont sb.Proc) sb.Proc {
+	return ctx.Marshal(ctx, reflect.ValueOf(l.N), cont)
+}
+
+var lateDone bool
+
+func apiLateRegistration(rep *Report, props ...string) {
+	if lateDone {
+		return // the history can be played once per process
+	}
+	lateDone = true
+	vals := []any{LateBin{7}, LateText{8}, LateSB{9}}
+	for _, x := range vals {
+		t := reflect.TypeOf(x)
+		px := reflect.New(t)
+		px.Elem().Set(reflect.ValueOf(x))
+		var boxed any = x
+		desc := fmt.Sprintf("late registration of %v (a type with a marshalling method)", t)
+		// before registration: marshalled directly, through a pointer, in an interface, concurrently
+		before, _ := marshalTokens(x, nil)
+		done := make(chan struct{})
+		for g := 0; g < 4; g++ {
+			go func() {
+				for i := 0; i < 50; i++ {
+					marshalTokens(px.Interface(), nil)
+					marshalTokens(&boxed, nil)
+					marshalTokens([]any{x, px.Interface()}, nil)
+				}
+				done <- struct{}{}
+			}()
+		}
+		for g := 0; g < 4; g++ {
+			<-done
+		}
+		sb.Register(t)
+		name := refTypeName(t)
+		want := append([]sb.Token{{Kind: sb.KindTypeName, Value: name}}, before...)
+		forms := map[string]any{"T": x, "*T": px.Interface(), "*any": &boxed, "[]any{T}": []any{x}, "[]any{*T}": []any{px.Interface()}}
+		for fname, f := range forms {
+			got, err := marshalTokens(f, nil)
+			rep.Evaluations++
+			rep.count("api:late-registration")
+			if len(got) >= 2 && got[0].Kind == sb.KindArray {
+				got = got[1 : len(got)-1]
+			}
+			if err != nil || !tokensExactEq(got, want) {
+				what := fmt.Sprintf("after Register(%v) a value marshalled as %s gives [%s] (%v), expected [%s]: the result depends on what was marshalled before the registration", t, fname, descTokens(got), err, descTokens(want))
+				for _, p := range props {
+					key := "registered-not-prefixed"
+					if p == "C19" {
+						key = "concurrent-result-differs"
+					}
+					rep.violate(p, key, what, desc)
+				}
+			}
+		}
+		if _, ok := x.(LateSB); !ok {
+			// round trip into any resurrects the registered type
+			ts, _ := marshalTokens(px.Interface(), nil)
+			var back any
+			e := guard(func() error { return copyBudget(tokensFrom(ts), sb.Unmarshal(&back)) })
+			if e != nil || reflect.TypeOf(back) != t || !reflect.DeepEqual(back, x) {
+				for _, p := range props {
+					if p == "C11" || p == "C19" {
+						key := "registered-name-not-resurrected"
+						if p == "C19" {
+							key = "concurrent-result-differs"
+						}
+						rep.violate(p, key, fmt.Sprintf("a pointer to a value of the late-registered %v decodes into %T %v (%v)", t, back, back, e), desc)
+					}
+				}
+			}
 		}
 	}
 }
